@@ -360,6 +360,15 @@ class C10(Prop):
         thorough = ctx.tier == "thorough"
         for j in range(60 if thorough else 12):
             cases.append(realloc_case(rng, "ra%d" % j, rng.choice([80, 80, 96, 128, 256, 1024]), "mem"))
+        # Reset keeps the buffer's memory and rewinds it: a tree that outgrew 1 MiB (256 default pages), reset, and grown
+        # past it again takes pages that held the previous tree's nodes - they must come back clean (the second life stops at
+        # another size, so that the nodes on the right spine are less full than they were)
+        v1, v2 = rng.randrange(2, 50), rng.randrange(50, 99)
+        step = rng.choice([1, 1, 3])
+        cases.append(Case("br0", "tree", [4096, "mem"],
+                          [["fill", 1, step, v1, 300], ["stats"], ["reset"], ["stats"], ["get", 1],
+                           ["fill", 1, step, v2, rng.randrange(262, 296)], ["stats"], ["iter"], ["get", 1], ["get", 1 + 5000 * step],
+                           ["delbelow", v2 + 1], ["stats"], ["iter"]], tags=["bigreset"]))
         for j in range(n):
             ps = rng.choice([80, 80, 80, 96, 96, 128, 128, 256, 1024, 4096])
             if thorough:
